@@ -23,10 +23,10 @@ import subprocess
 import time
 
 from vlib import pcp
-from vlib.common import HARNESS
+from vlib.common import HARNESS, REPO
 from vlib.pcp import Ent, OLD, hx
 from vlib.seqrun import run_batch
-from checks.c12 import SAN_FLAGS, read_const, probe_variant, variant_text
+from checks.c12 import SAN_FLAGS, read_const, probe_variant, variant_text, probe_cnt
 from checks.c12 import model_line as c12_model_line
 
 LEVEL = "proof"
@@ -42,7 +42,9 @@ MANIFEST = dict(
          "all mode bits, -p on/off, forward and reverse naming, one or several sources; 2-4 receivers as threads of "
          "one process with errors on several connections, as in rpdcp); the client's bytes, the "
          "replies and the destination tree are compared with the models and, independently, the destination with "
-         "the source (specification), which yields the failing tree as replay.",
+         "the source (specification), which yields the failing tree as replay.  Every run covers a fixed list of classes "
+         "(sizes, names, modes, times, deep/wide/empty directories, conflicts, overwrites, destinations, host names with "
+         "dots); the static objects and process-wide calls of pcp_server.c are compared with Pcp/Statics.lean.",
     design_ref="DESIGN.md section 5 C11/C12",
     note="Lean 4.33 kernel; axioms propext/Classical.choice/Quot.sound at most (audited per theorem every run); "
          "hand-written models tied to pcp_client.c/pcp_server.c by differential execution of the real sources built "
@@ -55,6 +57,10 @@ NAMES = [b"a", b"b", b"file one", b"x;y", b"$(touch z)", b"`id`", b"a&b|c", b"*"
          b"C0644 0 x", b"name.with.dots", b"UPPER", b"0", b"a b  c", b"%s%n", b"{}", b"[x]", b"<in>", b"k=v", b"e\x01m"]
 SIZES = [0, 0, 1, 1, 2, 7, 100, 8191, 8192, 8193, 3 * 8192 - 1, 3 * 8192, 3 * 8192 + 1]
 HOSTS = [b"host7", b"n1.dom.ain", b"h"]
+# access time of every source: later than every modification time used (and than the clock), so that reading a source --
+# the check's own listdir(), the client's readdir()/read() -- never refreshes it (relatime: atime <= mtime triggers an
+# update) and the `T` record is the same on every machine
+FUTURE = 2 ** 33
 
 
 class Node:
@@ -115,6 +121,10 @@ def set_meta(base, node, future):
     node.atime = future
     os.chmod(p, node.mode)
     os.utime(p, ns=(future * 10**9, node.mtime * 10**9 + node.nsec))
+    # the SOURCE is what the file system holds (it may clamp a far-future time or have a coarser clock)
+    st = os.stat(p)
+    node.mtime, node.nsec = st.st_mtime_ns // 10**9, st.st_mtime_ns % 10**9
+    node.atime = st.st_atime_ns // 10**9
 
 
 def reorder(base, node):
@@ -223,13 +233,20 @@ def dest_name(c, userdir, node):
     return node.name + (b"." + c["host"] if c["reverse"] else b"")
 
 
+def asname(c):
+    """a single file copied to a FILE name (new, or an existing regular file): (canonical parent, name), else None"""
+    if c["dest"] == b"dest/new name":
+        return (b"o/w/dest", b"new name")
+    return c.get("asname")
+
+
 def run_cases(ctx, exe, cases, cnt, var, cov, dist, distinct, nested=False):
     sbase = os.path.join(ctx.scratch, "src_shrink" if nested else "src")
     jbase = os.path.join(ctx.scratch, "jails_shrink" if nested else "jails")
     for d in (sbase, jbase):
         shutil.rmtree(d, ignore_errors=True)
         os.makedirs(d)
-    future = int(time.time()) + 50000000
+    future = FUTURE
     ops, mlines, ents_l, jails = [], [], [], []
     for c in cases:
         sdir = os.fsencode(os.path.join(sbase, "c%d" % c["k"]))
@@ -267,7 +284,7 @@ def run_cases(ctx, exe, cases, cnt, var, cov, dist, distinct, nested=False):
             comps[0] = dest_name(c, b"", top)
             for i in range(1, len(comps)):
                 ents.append(Ent(b"o/w/dest/" + b"/".join(comps[:i]), "d", 0o755, OLD + 20 + i))
-            ents.append(Ent(b"o/w/dest/" + b"/".join(comps), "f", 0o600, OLD + 30, b"X" * (node.gen[1] + 50)))
+            ents.append(Ent(b"o/w/dest/" + b"/".join(comps), "f", 0o600, OLD + 30, b"X" * (node.gen[1] + c.get("old_extra", 50))))
         j = os.path.join(jbase, "j%d" % c["k"])
         pcp.build_jail(j, ents)
         jails.append(j)
@@ -289,7 +306,21 @@ def run_cases(ctx, exe, cases, cnt, var, cov, dist, distinct, nested=False):
     t0 = int(time.time())
     if not nested:
         ctx.log("%d source trees and jails built" % len(cases))
-    impl = run_batch([exe], ops, timeout=1800, env=dict(os.environ, ASAN_OPTIONS="detect_leaks=0"))
+    env = dict(os.environ, ASAN_OPTIONS="detect_leaks=0")
+    impl = run_batch([exe], ops, timeout=1800, env=env)
+
+    def rerun(idx):
+        for k in idx:
+            shutil.rmtree(jails[k], ignore_errors=True)
+            pcp.build_jail(jails[k], ents_l[k])
+        return run_batch([exe], [ops[k] for k in idx], timeout=1800, env=env)
+
+    def sigs_of(a):
+        f_ = pcp.fields(a[0][0]) if a[0] else {}
+        return (f_.get("csig"), f_.get("ssig"))
+    nre = pcp.retry_timeouts(impl, lambda a: "998" in sigs_of(a), lambda a: "997" in sigs_of(a), rerun)
+    if nre:
+        dist["timeouts_retried"] = dist.get("timeouts_retried", 0) + nre
     if not nested:
         ctx.log("real client/server round trips done")
     mans = ctx.model("pcp", "".join(l + "\n" for l in mlines), timeout=1800)
@@ -308,9 +339,9 @@ def run_cases(ctx, exe, cases, cnt, var, cov, dist, distinct, nested=False):
                     gens[d[:64] + b"|%d" % len(d)] = n.gen
         dcanon = pcp.lexnorm(CWD, c["dest"])
         stoks = []
-        if c["dest"] == b"dest/new name":
-            dcanon = b"o/w/dest"
-            stoks = tokens(c["srcs"][0][1], name=b"new name")
+        if asname(c):
+            dcanon, newname = asname(c)
+            stoks = tokens(c["srcs"][0][1], name=newname)
         else:
             for userdir, t in c["srcs"]:
                 stoks += tokens(t, name=dest_name(c, userdir, t))
@@ -358,19 +389,36 @@ def run_cases(ctx, exe, cases, cnt, var, cov, dist, distinct, nested=False):
             ctx.disagreement("spec11", "unexpected answer " + sp[:300], cj)
         if c.get("overwrite"):
             dist["overwrite_cases"] += 1
+        if c.get("refused"):
+            # several entries for a destination that is not an existing directory: pdcp runs the receiver with -y, which
+            # must refuse the copy -- reported, nothing created, the file that is there untouched
+            dist["refused_dest_cases"] = dist.get("refused_dest_cases", 0) + 1
+            bads = []
+            ch = pcp.changed_paths({e.path: e for e in ents_l[i]}, snaps[i], t0)
+            if "E:notdir" not in replies or ch:
+                ctx.offender("refused:destination-not-a-directory", "several entries copied to a destination that is not "
+                             "an existing directory: expected one `not a directory` error record and no change; replies "
+                             "%s, changed %r" % (replies[:6], ch[:4]), cj)
         cp = c.get("conflict_path")
         if cp:
             dist["conflict_cases"] += 1
             bads = [(p, k) for p, k in bads if not (p == cp or p.startswith(cp + b"/"))]
             if not any(r.startswith("E:") for r in replies):
                 ctx.offender("isolation:unreported", "an entry that could not be written was not reported", cj)
+            # what was in the way is "another file": it must still be what it was
+            rw = snaps[i].get(cp)
+            if c["conflict"][1] == "d" and not (rw and rw["kind"] == "f" and rw["data"] == b"in the way"):
+                ctx.offender("isolation:entry-in-the-way-damaged", "the regular file in the way of the directory %r was "
+                             "replaced or overwritten (now %s)" % (cp, rw and (rw["kind"], (rw["data"] or b"")[:30])), cj)
+            if c["conflict"][1] == "f" and not (rw and rw["kind"] == "d"):
+                ctx.offender("isolation:entry-in-the-way-damaged", "the directory in the way of the file %r is gone" % cp, cj)
         expected = {}
         dc = pcp.lexnorm(CWD, c["dest"])
         for _, t in c["srcs"]:
             for path, n in walk(t, []):
                 comps = path.split(b"/")
-                comps[0] = b"new name" if c["dest"] == b"dest/new name" else dest_name(c, b"", t)
-                expected[(b"o/w/dest" if c["dest"] == b"dest/new name" else dc) + b"/" + b"/".join(comps)] = n
+                comps[0] = asname(c)[1] if asname(c) else dest_name(c, b"", t)
+                expected[(asname(c)[0] if asname(c) else dc) + b"/" + b"/".join(comps)] = n
         # the specification compares modification times to the microsecond; name the sub-second class
         bads = [(pa, "mtime-subsecond" if k == "mtime" and pa in expected and expected[pa].nsec and snaps[i].get(pa) and
                  (snaps[i][pa]["sec"], snaps[i][pa]["nsec"]) == (expected[pa].mtime, 0) else k) for pa, k in bads]
@@ -637,7 +685,9 @@ def case_json(c):
     return dict(sources=[dict(userdir=u.decode("latin-1"), tree=describe(t)) for u, t in c["srcs"]], preserve=c["p"],
                 reverse=c["reverse"], host=c["host"].decode(), umask="%o" % c["um"], dest=c["dest"].decode("latin-1"),
                 file_size_limit=c.get("fsz", 0), destmode="%o" % c["destmode"], conflict=(c["conflict"][0].decode("latin-1"), c["conflict"][1]) if c["conflict"] else None,
-                overwrite=c["overwrite"].decode("latin-1") if c.get("overwrite") else None)
+                overwrite=c["overwrite"].decode("latin-1") if c.get("overwrite") else None,
+                old_extra=c.get("old_extra", 50), refused=bool(c.get("refused")),
+                asname=[x.decode("latin-1") for x in c["asname"]] if c.get("asname") else None)
 
 
 def from_json(j, k):
@@ -652,7 +702,9 @@ def from_json(j, k):
                 reverse=j["reverse"], host=j["host"].encode(), um=int(j["umask"], 8), dest=j["dest"].encode("latin-1"),
                 conflict=(j["conflict"][0].encode("latin-1"), j["conflict"][1]) if j.get("conflict") else None,
                 overwrite=j["overwrite"].encode("latin-1") if j.get("overwrite") else None, fsz=j.get("file_size_limit", 0),
-                destmode=int(j["destmode"], 8), subsec=any(n.nsec for s in j["sources"] for _, n in walk(mk(s["tree"]), [])))
+                destmode=int(j["destmode"], 8), subsec=any(n.nsec for s in j["sources"] for _, n in walk(mk(s["tree"]), [])),
+                old_extra=j.get("old_extra", 50), refused=j.get("refused", False),
+                asname=tuple(x.encode("latin-1") for x in j["asname"]) if j.get("asname") else None)
 
 
 def corpus(k0):
@@ -672,15 +724,121 @@ def corpus(k0):
     cs.append(dict(base, p=0, overwrite=b"d/x", srcs=[(b"", Node(b"d", "d", 0o755, 1234567000, kids=[f(b"x", 10), f(b"z", 3)]))]))
     # a source the user names exactly like the leave-directory sentinel is sent as `E`
     cs.append(dict(base, srcs=[(b"", f(b"a!b@c#d$", 5)), (b"", f(b"after", 9))]))
+    cs += classes()
     for i, c in enumerate(cs):
         c["k"] = k0 + i
+    return cs
+
+
+def classes():
+    """The classes EVERY quick run covers whatever the seed (G1): sizes at and around the transfer block, twice the
+    block, a size with a long decimal text; names with blanks, leading dashes, `%` directives, 255 bytes, control bytes,
+    names that look like protocol records or like the leave-directory sentinel (as directory entries and as sources the
+    user names); every interesting mode of files and directories; modification times 0, sub-second, at and beyond 2^31
+    and 2^32; all of it with and without -p; directories empty, deep, wide; a file where a directory is expected on the
+    target and the reverse, at the top and inside a tree; existing longer files replaced (barely longer, one block longer,
+    much longer; new size 0 / a block multiple / neither); several sources through sub-paths; reverse copies from hosts
+    whose names contain dots; the destination given as directory, directory with slash, absolute, through `..`, as a
+    new file name, as an existing file, and -- with several entries -- missing or a regular file (must be refused);
+    umask 0 / 027 / 077 without -p; write faults."""
+    B = pcp.BUFSIZ
+
+    def f(name, size, mode=0o644, mt=1234567890, nsec=0):
+        return Node(name, "f", mode, mt, nsec=nsec, gen=(size + 11 + len(name), size))
+
+    def d(name, kids, mode=0o755, mt=1234567000, nsec=0):
+        return Node(name, "d", mode, mt, nsec=nsec, kids=kids)
+    base = dict(p=1, reverse=False, host=b"host7", um=0o22, dest=b"dest", conflict=None, overwrite=None, destmode=0o755,
+                subsec=False, fsz=0)
+    cs = []
+    # ---- sizes
+    for p in (0, 1):
+        cs.append(dict(base, p=p, srcs=[(b"", d(b"sizes", [f(b"s%d" % n, n) for n in (0, 1, B - 1, B, B + 1, 2 * B - 1, 2 * B,
+                                                                                 2 * B + 1)]))]))
+    cs.append(dict(base, p=0, srcs=[(b"", f(b"long-size", 1048577))]))
+    # ---- names
+    names = [b"with blank", b" leading blank", b"trailing blank ", b"-leading-dash", b"--", b"-", b"100%", b"%s%n%d%p%S%m",
+             b"%", b"N" * 255, b"E", b"T1 0 1 0", b"C0644 0 x", b"D0755 0 x", b"a!b@c#d$", b"\x01soh", b"\x02stx",
+             b"tab\there", b"back\\slash", b"cr\rname", b"\xff\xfe", b"...", b"..x", b"~", b"*"]
+    for p in (0, 1):
+        cs.append(dict(base, p=p, srcs=[(b"", d(b"names", [f(n, 3 + i) for i, n in enumerate(names)] +
+                                                [d(b"dir " + n[:40], [f(n, 1)]) for n in names[:12]]))]))
+    cs.append(dict(base, p=0, srcs=[(b"", d(n, [f(b"in", 2)])) for n in (b"-d", b"100% dir", b"E")]))
+    for i, n in enumerate((b"-leading-dash", b"E", b"T1 0 1 0", b"%s%n", b"N" * 255, b"with blank")):
+        cs.append(dict(base, p=i % 2, srcs=[(b"", f(n, 5 + i))]))
+    cs.append(dict(base, srcs=[(b"", d(b"a!b@c#d$", [f(b"inside", 4), d(b"a!b@c#d$", [f(b"a!b@c#d$", 2)])])), (b"", f(b"after", 9))]))
+    # ---- modes
+    fm = [0, 0o400, 0o777, 0o4755, 0o2755, 0o1777, 0o7777, 0o644, 0o200, 0o111, 0o4000, 0o2000, 0o1000]
+    dm = [0, 0o500, 0o777, 0o1777, 0o2775, 0o4755, 0o7777, 0o700, 0o3000]
+    for p in (0, 1):
+        for um in (0o27, 0):
+            cs.append(dict(base, p=p, um=um, srcs=[(b"", d(b"modes", [f(b"f%o" % m, 4, mode=m) for m in fm] +
+                                                            [d(b"d%o" % m, [f(b"k", 1), d(b"kd", [])], mode=m) for m in dm]))]))
+    for i, m in enumerate((0, 0o4755, 0o1777)):
+        cs.append(dict(base, p=1, srcs=[(b"", f(b"top%o" % m, 3, mode=m)), (b"", d(b"topd%o" % m, [f(b"k", 1)], mode=m))]))
+    # ---- modification times
+    mts = [(0, 0), (1, 0), (1234567890, 123456000), (1234567890, 999999000), (1234567890, 1000), (1234567890, 999),
+           (2147483647, 0), (2147483648, 0), (4102444800, 0), (4294967296, 500000000), (4294967295, 999999999)]
+    for p in (0, 1):
+        cs.append(dict(base, p=p, subsec=True, srcs=[(b"", d(b"times", [f(b"t%d" % i, 2, mt=sec, nsec=ns) for i, (sec, ns) in enumerate(mts)] +
+                                                            [d(b"dt%d" % i, [f(b"k", 1)] if i % 2 else [], mt=sec, nsec=ns)
+                                                             for i, (sec, ns) in enumerate(mts)], mt=0))]))
+    cs.append(dict(base, subsec=True, srcs=[(b"", f(b"t-top", 1, mt=0)), (b"", f(b"t-sub", 1, nsec=500000000)),
+                                          (b"", d(b"d-top", [f(b"k", 1)], mt=1, nsec=1000))]))
+    # ---- directories: empty, deep (no fixed-size stack anywhere may hold this), wide
+    cs.append(dict(base, srcs=[(b"", d(b"e1", [], mode=0o700)), (b"", d(b"e2", [d(b"e3", [d(b"e4", [])])]))]))
+    deep = f(b"leaf", 10)
+    for i in range(40):
+        deep = d(b"l%d" % (i % 3), [deep, f(b"side", i)] if i % 7 == 0 else [deep], mt=1234560000 + i)
+    cs.append(dict(base, srcs=[(b"", deep)]))
+    cs.append(dict(base, p=0, srcs=[(b"", d(b"wide", [f(b"w%03d" % i, i % 5) for i in range(300)]))]))
+    # ---- something of the wrong kind is in the way
+    def tree():
+        return d(b"tree", [f(b"a", 3), d(b"sub", [f(b"x", 4), d(b"deeper", [f(b"y", 1)])]), f(b"z", 5)])
+    for path, kind in ((b"tree", "d"), (b"tree/sub", "d"), (b"tree/a", "f"), (b"tree/sub/x", "f"), (b"tree/z", "f")):
+        for p in (0, 1):
+            cs.append(dict(base, p=p, conflict=(path, kind), srcs=[(b"", tree()), (b"", f(b"other file", 7))]))
+    cs.append(dict(base, conflict=(b"single", "f"), srcs=[(b"", f(b"single", 9)), (b"", f(b"next", B + 3))]))
+    cs.append(dict(base, reverse=True, host=b"n1.dom.ain", conflict=(b"single", "f"), srcs=[(b"", f(b"single", 9)), (b"", f(b"next", 3))]))
+    # ---- an existing longer file is replaced, not patched
+    for n in (0, 10, B, B + 10, 2 * B):
+        for extra in (1, 50, B, 3 * B):
+            cs.append(dict(base, p=(n + extra) % 2, overwrite=b"d/x", old_extra=extra,
+                           srcs=[(b"", d(b"d", [f(b"x", n), f(b"z", 3)]))]))
+    cs.append(dict(base, overwrite=b"top", old_extra=B, srcs=[(b"", f(b"top", B))]))
+    # ---- several sources through sub-paths
+    cs.append(dict(base, srcs=[(b"in", f(b"one", 1)), (b"deep/er", d(b"two", [f(b"k", 2)])), (b"", f(b"three", 3)),
+                               (b"in", d(b"four", []))]))
+    # ---- reverse copies: SRC.host with dots in the host name
+    for i, host in enumerate((b"n1.dom.ain", b"h", b"a.b.c.d.example.org", b"host-7", b"10.0.0.1")):
+        cs.append(dict(base, p=i % 2, reverse=True, host=host, srcs=[
+            (b"in", f(b"t.txt", B + 1)), (b"", d(b"tree.d", [f(b"q", 5), d(b"e", [])], mode=0o750)), (b"", f(b"noext", 0))]))
+    # ---- the destination
+    for dest in (b"dest/", b"./dest", b"/o/w/dest", b"../w/dest", b"dest/.", b"dest//"):
+        cs.append(dict(base, dest=dest, srcs=[(b"", tree())]))
+        cs.append(dict(base, p=0, dest=dest, srcs=[(b"", f(b"single", 3))]))
+    for p in (0, 1):
+        cs.append(dict(base, p=p, dest=b"dest/new name", srcs=[(b"", f(b"single", B, mode=0o640))]))
+        cs.append(dict(base, p=p, dest=b"other", asname=(b"o/w", b"other"), srcs=[(b"", f(b"single", 3, mode=0o640))]))
+        cs.append(dict(base, p=p, dest=b"missing", refused=True, srcs=[(b"", tree())]))
+        cs.append(dict(base, p=p, dest=b"other", refused=True, srcs=[(b"", f(b"a", 1)), (b"", f(b"b", 2))]))
+        cs.append(dict(base, p=p, dest=b"dest/nope/deeper", refused=True, srcs=[(b"", f(b"a", 1)), (b"", f(b"b", 2))]))
+    # ---- umask without -p
+    for um in (0, 0o77, 0o27, 0o777):
+        cs.append(dict(base, p=0, um=um, srcs=[(b"", d(b"um", [f(b"f", 1, mode=0o666), f(b"x", 1, mode=0o7777), d(b"dd", [], mode=0o777)],
+                                                         mode=0o777))]))
+    # ---- write faults
+    for fsz in (B, 2 * B, 100):
+        cs.append(dict(base, p=fsz % 3 % 2, fsz=fsz, srcs=[(b"", d(b"wf", [f(b"a", 100), f(b"big", 5 * B + 1), f(b"fits", min(fsz, B)),
+                                                                       d(b"sub", [f(b"big2", 3 * B), f(b"ok", 7)]), f(b"z", 50)]))]))
     return cs
 
 
 
 # ------------------------------------------------------------------ end to end (supporting)
 SAFE_TOP = [b"t1", b"tree", b"file.txt", b"data_2", b"A"]
-HOSTS3 = ["h1", "h2", "h3"]
+# one target name with dots: `SRC.host` carries the whole name (diagnostics show the short one, err.c %S)
+HOSTS3 = ["h1", "n2.dom.ain", "h3"]
 
 
 def tame(node):
@@ -714,8 +872,8 @@ def run_e2e(ctx, cov, dist):
     for n in ("pdcp", "rpdcp"):
         if not os.path.lexists(os.path.join(bindir, n)):
             os.symlink(os.path.join(repo, "src/pdsh/pdsh"), os.path.join(bindir, n))
-    nruns = 8 if ctx.quick() else 60
-    future = int(time.time()) + 50000000
+    nruns = 12 if ctx.quick() else 60
+    future = FUTURE
     dist["e2e_runs"] = 0
     for k in range(nruns):
         w = os.path.join(ctx.scratch, "e2e%d" % k)
@@ -737,7 +895,9 @@ def run_e2e(ctx, cov, dist):
         # the first runs pin the corners of the command-line rules: exactly two list entries (-y), one entry (no -y),
         # -p on and off in both directions, no -r for plain files
         plan = [dict(p=1, shape="emptydir"), dict(p=1, shape="any"), dict(p=0, shape="file"), dict(p=0, shape="any"),
-                dict(p=1, shape="two"), dict(p=1, shape="file"), dict(p=0, shape="twofiles-destfile"), dict(p=0, shape="unreadable")]
+                dict(p=1, shape="two"), dict(p=1, shape="file"), dict(p=0, shape="twofiles-destfile"), dict(p=0, shape="unreadable"),
+                dict(p=1, shape="newname"), dict(p=1, shape="tree"), dict(p=0, shape="reverse-blocked"),
+                dict(p=1, shape="deep-reverse")]
         shape = "any"
         if k < len(plan):
             p, shape = plan[k]["p"], plan[k]["shape"]
@@ -746,6 +906,34 @@ def run_e2e(ctx, cov, dist):
         elif shape == "file":
             trees = [Node(b"file.txt", "f", 0o640, 1300000001, gen=(77, 10240))]
             r = 0
+        elif shape == "newname":
+            # ONE plain file copied to a file name that does not exist yet: the receiver must NOT be told that the target
+            # is a directory (-y only for more than one list entry)
+            reverse = False
+            trees = [Node(b"file.txt", "f", 0o640, 1300000001, gen=(79, pcp.BUFSIZ + 5))]
+            r = 0
+        elif shape == "reverse-blocked":
+            # rpdcp of two plain files from three hosts; locally the name file.txt.h2 is taken by a directory: "a file that
+            # cannot be written is reported for that host without corrupting any other file"
+            reverse = True
+            trees = [Node(b"file.txt", "f", 0o640, 1300000001, gen=(84, pcp.BUFSIZ + 1)), Node(b"data_2", "f", 0o600, 1300000002, gen=(85, 20))]
+            r = 0
+        elif shape == "deep-reverse":
+            # rpdcp -r of a tree 30 levels deep: the local receivers are per-target threads on 128 KiB stacks
+            reverse = True
+            deep = Node(b"leaf", "f", 0o644, 1300000099, gen=(86, 10))
+            for lvl in range(30):
+                deep = Node(b"l%d" % (lvl % 4), "d", 0o755, 1300000010 + lvl, kids=[deep])
+            deep.name = b"deep"
+            trees = [deep]
+        elif shape == "tree":
+            # a fixed tree with -r in a REVERSE copy: nested and empty directories, a file of several blocks
+            reverse = True
+            trees = [Node(b"tree", "d", 0o750, 1300000000, kids=[
+                Node(b"a file", "f", 0o640, 1300000001, gen=(81, 3 * pcp.BUFSIZ + 1)),
+                Node(b"sub", "d", 0o700, 1300000002, kids=[Node(b"inner", "f", 0o600, 1300000003, gen=(82, 0)),
+                                                           Node(b"empty", "d", 0o755, 1300000004, kids=[])]),
+                Node(b"z", "f", 0o444, 1300000005, gen=(83, 1))])]
         elif shape == "unreadable":
             # a file the (unprivileged) user cannot read INSIDE a source directory: it may cost that file (or the run may
             # be refused), but pdcp must terminate, say so, and every other file that arrives must be intact
@@ -772,7 +960,7 @@ def run_e2e(ctx, cov, dist):
                 tame(t)
         bw = os.fsencode(w)
         roots = [bw + b"/" + h.encode() + b"/rsrc" for h in HOSTS3] if reverse else [bw + b"/src"]
-        destfile_host = "h2" if shape == "twofiles-destfile" else None
+        destfile_host = HOSTS3[1] if shape == "twofiles-destfile" else None
         for h in HOSTS3:
             if h == destfile_host:
                 os.makedirs(os.path.join(w, h))
@@ -781,6 +969,9 @@ def run_e2e(ctx, cov, dist):
             else:
                 os.makedirs(os.path.join(w, h, "dst"))
         os.makedirs(os.path.join(w, "out"))
+        blocked_host = HOSTS3[1] if shape == "reverse-blocked" else None
+        if blocked_host:
+            os.makedirs(os.path.join(w, "out", "file.txt." + blocked_host))
         for root in roots:
             os.makedirs(root, exist_ok=True)
             for t in trees:
@@ -794,16 +985,38 @@ def run_e2e(ctx, cov, dist):
         flags = (["-r"] if r else []) + (["-p"] if p else [])
         if reverse:
             users = ["rsrc/" + t.name.decode() for t in trees]
-            cmd = ["rpdcp", "-R", "pcptest", "-w", "h[1-3]"] + flags + ["-e", wrapper] + users + ["out"]
+            cmd = ["rpdcp", "-R", "pcptest", "-w", ",".join(HOSTS3)] + flags + ["-e", wrapper] + users + ["out"]
         else:
             users = ["src/" + t.name.decode() for t in trees]
-            cmd = ["pdcp", "-R", "pcptest", "-w", "h[1-3]"] + flags + ["-e", wrapper] + users + ["dst"]
+            cmd = ["pdcp", "-R", "pcptest", "-w", ",".join(HOSTS3)] + flags + ["-e", wrapper] + users + [
+                "dst/newname" if shape == "newname" else "dst"]
         full = ["setpriv", "--reuid", "1000", "--regid", "1000", "--clear-groups"] + env + cmd
         cj = dict(e2e=True, command=" ".join(cmd), sources=[describe(t) for t in trees])
-        try:
-            pr = subprocess.run(full, cwd=w, stdout=subprocess.PIPE, stderr=subprocess.PIPE,
-                                timeout=10 if shape == "unreadable" else 120)
-        except subprocess.TimeoutExpired:
+        pr = None
+        for attempt in (0, 1):
+            # generous waits; a time-out alone is re-tried once (targets emptied) before it is reported
+            try:
+                pr = subprocess.run(full, cwd=w, stdout=subprocess.PIPE, stderr=subprocess.PIPE,
+                                    timeout=25 if shape == "unreadable" else 120)
+                break
+            except subprocess.TimeoutExpired:
+                subprocess.run(["pkill", "-9", "-u", "1000", "-f", wrapper])
+                if attempt == 0 and not getattr(ctx, "e2e_hang_confirmed", False):
+                    dist["timeouts_retried"] = dist.get("timeouts_retried", 0) + 1
+                    for h in HOSTS3:
+                        if h != destfile_host:
+                            shutil.rmtree(os.path.join(w, h, "dst"), ignore_errors=True)
+                            os.makedirs(os.path.join(w, h, "dst"))
+                    shutil.rmtree(os.path.join(w, "out"), ignore_errors=True)
+                    os.makedirs(os.path.join(w, "out"))
+                    if blocked_host:
+                        os.makedirs(os.path.join(w, "out", "file.txt." + blocked_host))
+                    open(log, "w").close()
+                    subprocess.run(["chown", "-R", "1000:1000", w])
+                    continue
+                ctx.e2e_hang_confirmed = True
+                break
+        if pr is None:
             if shape == "unreadable":
                 subprocess.run(["pkill", "-u", "1000", "-f", wrapper])
                 cov["evaluations"] += 1
@@ -841,9 +1054,19 @@ def run_e2e(ctx, cov, dist):
             if not kept:
                 ctx.offender("e2e:dest-file-overwritten", "two sources copied to a destination that is a regular file on "
                              "target %s: the file was overwritten/replaced" % destfile_host, cj)
-            if destfile_host.encode() not in pr.stderr and pr.returncode == 0:
+            if destfile_host.split(".")[0].encode() not in pr.stderr and pr.returncode == 0:
                 ctx.offender("e2e:unreported", "two sources copied to a destination that is a regular file on target "
                              "%s: no error was reported for that target" % destfile_host, cj)
+        elif blocked_host:
+            errl = [l for l in pr.stderr.split(b"\n") if l.strip()]
+            if not any(blocked_host.split(".")[0].encode() in l for l in errl):
+                ctx.offender("e2e:unreported", "rpdcp: the local name file.txt.%s is taken by a directory: no error was "
+                             "reported for that host (stderr %r)" % (blocked_host, pr.stderr[-200:]), cj)
+            if any(h.encode() + b":" in l for l in errl for h in HOSTS3 if h != blocked_host):
+                ctx.offender("e2e:reported-error", "rpdcp: an error is reported for a host whose files can all be written: %r"
+                             % pr.stderr[-300:], cj)
+            if not os.path.isdir(os.path.join(w, "out", "file.txt." + blocked_host)):
+                ctx.offender("e2e:fidelity", "rpdcp: the directory in the way of file.txt.%s was replaced" % blocked_host, cj)
         elif pr.returncode != 0 or pr.stderr.strip():
             ctx.offender("e2e:reported-error", "pdcp/rpdcp reports an error on a copy that must succeed (rc=%d): %s" %
                          (pr.returncode, pr.stderr.decode("latin-1")[-300:]), cj)
@@ -855,7 +1078,8 @@ def run_e2e(ctx, cov, dist):
             mlines = ["cmdr %s %d %d %s %s" % (hx(os.fsencode(wrapper)), r, p, hx(h.encode()),
                                                " ".join(hx(u.encode()) for u in users)) for h in HOSTS3]
         else:
-            mlines = ["cmdf %s %d %d %d %s" % (hx(os.fsencode(wrapper)), r, p, nent, hx(b"dst"))] * 3
+            mlines = ["cmdf %s %d %d %d %s" % (hx(os.fsencode(wrapper)), r, p, nent,
+                                               hx(b"dst/newname" if shape == "newname" else b"dst"))] * 3
         want = sorted(" ".join(pcp.unhx(x).decode().split()) for x in ctx.model("pcp", "".join(l + "\n" for l in mlines)))
         if logged != want:
             ctx.disagreement("pcp command line (dsh())", "remote command lines: real %r model %r" % (logged, want), cj)
@@ -875,12 +1099,13 @@ def run_e2e(ctx, cov, dist):
                 snap = pcp.snapshot(os.path.join(w, "out"))
                 stoks = []
                 for t in trees:
-                    stoks += tokens(t, name=t.name + b"." + h.encode())
+                    if not (h == blocked_host and t.name == b"file.txt"):
+                        stoks += tokens(t, name=t.name + b"." + h.encode())
             else:
                 snap = pcp.snapshot(os.path.join(w, h, "dst"))
                 stoks = []
                 for t in trees:
-                    stoks += tokens(t)
+                    stoks += tokens(t, name=b"newname" if shape == "newname" else None)
             ft = snapshot_tokens(snap, gens)
             slines.append("spec11 %d - %d %s %s" % (p, len(ft), " ".join(ft), " ".join(stoks)))
         for h, sp in zip(HOSTS3, ctx.model("pcp", "".join(l + "\n" for l in slines))):
@@ -937,6 +1162,13 @@ def multi_corpus(k0):
                  for j, (h, bl) in enumerate(((b"h1", b"f1"), (b"h2", b"f2")))]
         out.append(dict(k=k0 + len(out), multi=True, p=0, um=0o27 if urace else 0o22, conns=conns, cut="records", race=race,
                         urace=urace))
+    # a DEEP tree from every host: the receivers are threads on small stacks (dsh.c: 128 KiB per target thread) and
+    # _sink() recurses once per directory level (seeded change C11-9: an 8 KiB buffer in every frame)
+    # (not much deeper: the sanitizer build needs more stack per frame than the shipped one)
+    for depth in (24, 32):
+        conns = [dict(host=h, files=[(b"f1", 5, 0o644, 1234567890, 3)], blocked=[], dir=False, dirblocked=False,
+                      senddata=False, overwrite=False, deep=depth) for h in (b"h1", b"n2.dom.ain")]
+        out.append(dict(k=k0 + len(out), multi=True, p=0, um=0o22, conns=conns, cut="records", race=None, urace=None))
     return out
 
 
@@ -950,6 +1182,12 @@ def multi_stream(c, cn):
         recs.append(b"C%04o %d %s\n" % (mode, size, name))
         if n not in cn["blocked"] or cn["senddata"]:
             recs.append(pcp.lcg_bytes(seed, size) + b"\0")
+    for lvl in range(cn.get("deep", 0)):
+        recs.append(b"D0755 0 %s\n" % (b"deep." + cn["host"] if lvl == 0 else b"l%d" % lvl))
+    if cn.get("deep", 0):
+        recs.append(b"C0644 4 leaf\n")
+        recs.append(b"deep\0")
+        recs += [b"E\n"] * cn["deep"]
     if cn["dir"]:
         if c["p"]:
             recs.append(b"T1300000000 0 1300000001 0\n")
@@ -985,7 +1223,8 @@ def multi_json(c):
                 umask_race=list(c["urace"]) if c.get("urace") else None,
                 conns=[dict(host=cn["host"].decode(), files=[[f[0].decode("latin-1")] + list(f[1:]) for f in cn["files"]],
                             blocked=[b.decode("latin-1") for b in cn["blocked"]], dir=cn["dir"],
-                            dirblocked=cn["dirblocked"], senddata=cn["senddata"], overwrite=cn["overwrite"])
+                            dirblocked=cn["dirblocked"], senddata=cn["senddata"], overwrite=cn["overwrite"],
+                            deep=cn.get("deep", 0))
                        for cn in c["conns"]])
 
 
@@ -995,7 +1234,8 @@ def multi_from_json(j, k):
                 urace=tuple(j["umask_race"]) if j.get("umask_race") else None,
                 conns=[dict(host=cn["host"].encode(), files=[tuple([f[0].encode("latin-1")] + f[1:]) for f in cn["files"]],
                             blocked=[b.encode("latin-1") for b in cn["blocked"]], dir=cn["dir"],
-                            dirblocked=cn["dirblocked"], senddata=cn["senddata"], overwrite=cn["overwrite"])
+                            dirblocked=cn["dirblocked"], senddata=cn["senddata"], overwrite=cn["overwrite"],
+                            deep=cn.get("deep", 0))
                        for cn in j["conns"]])
 
 
@@ -1034,7 +1274,22 @@ def run_multi(ctx, exe, cases, cnt, var, cov, dist):
                 mlines0.append(c12_model_line(dict(mc, stream=s, um=0), ents, cnt, var))
                 index0.append((c, i))
     t0 = int(time.time())
-    impl = run_batch([exe], ops, timeout=1800, env=dict(os.environ, ASAN_OPTIONS="detect_leaks=0"))
+    env = dict(os.environ, ASAN_OPTIONS="detect_leaks=0")
+    impl = run_batch([exe], ops, timeout=1800, env=env)
+
+    def rerun(idx):
+        for k in idx:
+            jail = ops[k][0].split()[1]
+            shutil.rmtree(jail, ignore_errors=True)
+            pcp.build_jail(jail, index[k][0]["ents"])
+        return run_batch([exe], [ops[k] for k in idx], timeout=1800, env=env)
+
+    def f_of(a):
+        return pcp.fields(a[0][0]) if a[0] else {}
+    nre = pcp.retry_timeouts(impl, lambda a: f_of(a).get("sig") in ("998", "999") or f_of(a).get("to") == "1",
+                             lambda a: f_of(a).get("sig") == "997", rerun)
+    if nre:
+        dist["timeouts_retried"] = dist.get("timeouts_retried", 0) + nre
     mans = ctx.model("pcp", "".join(l + "\n" for l in mlines + mlines0), timeout=1800)
     res, res0 = {}, {}
     for (c, i), (ans, crash), ml in zip(index, impl, mans):
@@ -1054,7 +1309,7 @@ def run_multi(ctx, exe, cases, cnt, var, cov, dist):
             ctx.disagreement("pcp harness", "multi: harness failed: %s %s" % (str(f)[:200], str(crash)[-300:]), cj)
             continue
         if f["to"] != "0" or f["sig"] == "998":
-            ctx.offender("timeout", "receivers of %d connections in one process: not finished after 8 s" % len(c["conns"]), cj)
+            ctx.offender("timeout", "receivers of %d connections in one process: not finished after 30 s" % len(c["conns"]), cj)
             continue
         if f["san"] != "0" or f["sig"] != "0" or f["rc"] != "0":
             ctx.offender("crash", "receivers in one process: rc=%s sig=%s sanitizer=%s: %s" % (
@@ -1208,7 +1463,7 @@ def probe_sender(ctx, exe):
         for d in (sdir, j):
             shutil.rmtree(d, ignore_errors=True)
         os.makedirs(sdir)
-        future = int(time.time()) + 50000000
+        future = FUTURE
         for t in trees:
             materialize(os.fsencode(sdir), t, future)
             set_meta(os.fsencode(sdir), t, future)
@@ -1240,7 +1495,10 @@ def run(ctx):
     ctx.audit(PROPS)
     pcp.BUFSIZ = read_const("PCP_BUFSIZ")
     exe = os.path.join(ctx.scratch, "pcp_h")
-    ok = ctx.cc(exe, [os.path.join(HARNESS, "pcp_harness.c")], flags=SAN_FLAGS, san=True, assertions=True)
+    # the stack size dsh.c gives its per-target threads (the rpdcp receivers run on them)
+    mstack = re.search(r"^#define\s+DSH_THREAD_STACKSIZE\s+([0-9*+() \t]+)$", open(os.path.join(REPO, "src/pdsh/dsh.c")).read(), re.M)
+    stackflag = "-DHARNESS_THREAD_STACKSIZE=(%s)" % (mstack.group(1).strip() if mstack else "128*1024")
+    ok = ctx.cc(exe, [os.path.join(HARNESS, "pcp_harness.c")], flags=SAN_FLAGS + (stackflag,), san=True, assertions=True)
     cov = {"evaluations": 0, "distinct_nontrivial": 0, "samples": [],
            "rule": "source trees of regular files and directories: depth <= 5, fan-out <= 6, sizes 0,1,8191,8192,8193,"
                    "3*8192-1..+1 and random small, names with blanks, shell metacharacters, control and non-ASCII bytes "
@@ -1255,7 +1513,8 @@ def run(ctx):
     distinct = set()
     if ok:
         blk = int(subprocess.run([exe, "--blksize", ctx.scratch], stdout=subprocess.PIPE).stdout.decode().strip() or 0)
-        cnt = ((blk + pcp.BUFSIZ - 1) // pcp.BUFSIZ) * pcp.BUFSIZ or pcp.BUFSIZ
+        cnt = probe_cnt(ctx, exe, ((blk + pcp.BUFSIZ - 1) // pcp.BUFSIZ) * pcp.BUFSIZ or pcp.BUFSIZ)
+        dist["bp_cnt"] = cnt
         var = probe_variant(ctx, exe)
         var.update(probe_sender(ctx, exe))
         dist["receiver_variant"] = variant_text(var)
@@ -1263,7 +1522,7 @@ def run(ctx):
                                   "refused directory skipped: %s" % ("yes" if var["ssec"] else "no", "yes" if var["sfix"] else "no",
                                                                      "yes" if var["skipref"] else "no"))
         ctx.log("variants:", dist["receiver_variant"], "|", dist["sender_variant"])
-        n = 250 if ctx.quick() else 6000
+        n = 200 if ctx.quick() else 6000
         cases, mcases = [], []
         if ctx.replay:
             import json
@@ -1295,6 +1554,26 @@ def run(ctx):
         dist["error_stream_variant"] = ("shared by all receivers of the process (static FILE *fp): overlapping _error() calls "
                                         "cross-route" if dist.get("multi_overlapping_errors_cross_routed") else
                                         "per call: overlapping _error() calls keep their own connection")
+        # ---- what the receivers of one process share: the translation unit against Pcp/Statics.lean
+        so = pcp.static_objects(REPO, ctx.scratch)
+        shared_fp = bool(dist.get("multi_overlapping_errors_cross_routed"))
+        ms = pcp.fields(ctx.model("pcp", "statics %d\n" % int(shared_fp))[0])
+        if so is None:
+            ctx.disagreement("pcp statics", "pcp_server.c does not compile on its own", {})
+        else:
+            defs, calls = so
+            want = sorted(ms["defs"].split(","))
+            dist["server_static_objects"] = defs
+            dist["server_process_wide_calls"] = [c for c in calls if c in ms["modelled"].split(",")]
+            if defs != want:
+                ctx.disagreement("pcp statics", "pcp_server.c defines the objects of static storage duration %s; the model of "
+                                 "several receivers in one process (Pcp/Multi.lean, Pcp/Statics.lean) accounts for %s: state "
+                                 "that outlives a call is shared by all rpdcp receiver threads" % (defs, want),
+                                 dict(static_objects=defs, model=want))
+            bad = [c for c in calls if c in ms["forbidden"].split(",")]
+            if bad:
+                ctx.disagreement("pcp process-wide calls", "pcp_server.c calls %s: process-wide state the model of several "
+                                 "receivers in one process does not cover" % bad, dict(calls=bad))
         if os.environ.get("VERIF_C11_E2E", "1") != "0":
             run_e2e(ctx, cov, dist)
     cov["distinct_nontrivial"] = len(distinct)
